@@ -174,6 +174,40 @@ def resolve_local(n, linit):
     return ir.strip(n)
 
 
+M_SIZE = ("mem", ("this",), "m_size")
+N_BLOCKS = ("call", ("mem", ("this",), "block_count"))
+
+
+def local_terms(fn):
+    """name -> sx of the initialiser, for single-assignment locals"""
+    linit, _ = locals_init(fn)
+    out = {}
+    for n in ir.walk_expr(fn):
+        if n.get("kind") == "VarDecl" and n.get("id") in linit:
+            out[n.get("name")] = ir.sx(linit[n.get("id")])
+    return out
+
+
+def canon(t, lt, depth=0):
+    """canonical term: single-assignment locals replaced by their initialisers, accessor spellings unified
+    (size() = m_size, m_buffer.size() = block_count(), count_extra_bits() = bit_index(m_size)), casts dropped"""
+    if not isinstance(t, tuple) or depth > 12:
+        return t
+    if t[0] == "cast":
+        return canon(t[3], lt, depth + 1)
+    if t[0] == "ref" and t[1] in lt:
+        return canon(lt[t[1]], lt, depth + 1)
+    if t == ("call", ("mem", ("this",), "size")) or t == ("call", ("mem", ("this",), "length")):
+        return M_SIZE
+    if t == ("call", ("mem", ("mem", ("this",), "m_buffer"), "size")):
+        return N_BLOCKS
+    if t == ("call", ("mem", ("this",), "count_extra_bits")):
+        return ("call", ("mem", ("this",), "bit_index"), M_SIZE)
+    if t[0] == "bin" and t[1] == "%" and canon(t[3], lt, depth + 1) in BPB:
+        return ("call", ("mem", ("this",), "bit_index"), canon(t[2], lt, depth + 1))
+    return tuple(canon(x, lt, depth + 1) if isinstance(x, tuple) else x for x in t)
+
+
 # ---------------------------------------------------------------------------------------------------------------------
 # C03.helpers - exhaustive folding of the helper formulas
 def rule_helpers(rep, inst, R="C03.helpers"):
@@ -262,36 +296,46 @@ def rule_helpers(rep, inst, R="C03.helpers"):
     else:
         sweep("integer_ceil", ic[0], [(n, W) for n in pos_dom], lambda x: -(-x[0] // x[1]), what="ceil(n / div)")
 
-    # masks that clear / test the unused bits: every `~(~block(0) << e)`-style expression guarded by e != 0
+    # masks that clear / test the unused bits: the operand of `back() &= ...` in zero_unused_bits() and the value back() is compared with in all(),
+    # folded for every extra-bit count e in 1..W-1 (helpers such as low_bits_mask(e) are inlined by the folder)
+    EXTRA_T = ("call", ("mem", ("this",), "bit_index"), M_SIZE)
     for fname in ("zero_unused_bits", "all"):
         for fn in inst.find(fname, "xdynamic_bitset_base"):
-            masks = []
-            linit, _ = locals_init(fn)
-            for n in ir.walk_expr(fn):
-                if n.get("kind") == "BinaryOperator" and n.get("opcode") == "<<":
-                    amt = resolve_local(ir.ekids(n)[1], {})
-                    if amt.get("kind") == "DeclRefExpr":
-                        # climb to the enclosing full expression that is stored / compared
-                        top = n
-                        while True:
-                            p = d.parent_of(top)
-                            if p is None or p.get("kind") in ("CompoundAssignOperator", "VarDecl", "CompoundStmt", "IfStmt", "ReturnStmt") or \
-                                    (p.get("kind") == "BinaryOperator" and p.get("opcode") in ("=", "==", "!=")):
-                                break
-                            top = p
-                        masks.append((top, (amt.get("referencedDecl") or {}).get("id"), p))
             lab = "%s<%s>" % (fname, inst.btype)
-            if not masks:
-                rep.inconclusive(R, lab, "unused-bit mask", where=d.where(fn), detail="no `<< extra_bits` mask expression found")
+            lt = local_terms(fn)
+            decls = {n.get("name"): n for n in ir.walk_expr(fn) if n.get("kind") == "VarDecl"}
+            extra_vars = [nm for nm in lt if canon(("ref", nm), lt) == EXTRA_T]
+            if not extra_vars:
+                rep.inconclusive(R, lab, "unused-bit mask", where=d.where(fn), detail="no local holding size() % bits_per_block found")
                 continue
-            for top, var, par in masks:
+            evar = decls[extra_vars[0]]
+            targets = []
+            for n in ir.walk_expr(fn):
+                if fname == "zero_unused_bits" and n.get("kind") == "CompoundAssignOperator" and n.get("opcode") == "&=":
+                    tg = elem_target(ir.sx(ir.ekids(n)[0]), set())
+                    if tg is not None and tg[1] in ("back",) or (tg is not None and isinstance(tg[1], tuple) and tg[1][0] == "bin"):
+                        targets.append((ir.ekids(n)[1], ir.qtype(n)))
+                if fname == "all" and n.get("kind") == "BinaryOperator" and n.get("opcode") in ("!=", "=="):
+                    l_, r_ = ir.ekids(n)
+                    for x, y in ((l_, r_), (r_, l_)):
+                        tg = elem_target(ir.sx(x), set())
+                        if tg is not None and tg[1] == "back":
+                            yy = ir.strip(y)
+                            if yy.get("kind") == "DeclRefExpr" and (yy.get("referencedDecl") or {}).get("name") in decls and ir.ekids(decls[(yy.get("referencedDecl") or {}).get("name")]):
+                                dv = decls[(yy.get("referencedDecl") or {}).get("name")]
+                                targets.append((ir.ekids(dv)[-1], ir.qtype(dv)))
+                            else:
+                                targets.append((y, inst.btype))
+            if not targets:
+                rep.inconclusive(R, lab, "unused-bit mask", where=d.where(fn), detail="the mask applied to / compared with the last block was not found")
+                continue
+            for top, tq in targets:
                 bad = None
                 try:
                     for e in range(1, W):
-                        ctx = ceval.Ctx(d, {var: e}, {})
-                        v = ceval.ev(top, ctx)
-                        tq = ir.qtype(par) if par is not None and par.get("kind") in ("CompoundAssignOperator", "VarDecl") else inst.btype
-                        v = ceval.conv(v, tq if trange.type_range(tq) else inst.btype)
+                        v = ceval.ev(top, ceval.Ctx(d, {evar.get("id"): e}, {}))
+                        v = ceval.conv(v, tq.replace("const ", "") if trange.type_range(tq.replace("const ", "")) else inst.btype)
+                        v = ceval.conv(v, inst.btype)
                         if v != (1 << e) - 1:
                             bad = (e, v)
                             break
@@ -1053,42 +1097,44 @@ def r_branch(d, n, fn, sym):
 # ---------------------------------------------------------------------------------------------------------------------
 # C03.at / C03.empty
 def path_facts(path_prefix, fn, d, linit):
-    """linear facts over the symbols m_size and the parameters from the branch atoms of a path prefix; plus the flag
-    `nonempty` (m_size >= 1 established)"""
+    """linear facts over the symbols m_size and the parameters from the branch atoms of a path prefix (on canonical terms); plus the flag
+    `nonempty` (m_size >= 1 established: m_size != 0, empty() false, or bit_index(m_size) != 0)"""
     pnames = {p.get("name") for p in ir.params(fn)}
+    lt = local_terms(fn)
+    EXTRA = ("call", ("mem", ("this",), "bit_index"), M_SIZE)
 
     def symmap(t):
-        if t == ("mem", ("this",), "m_size") or t == ("call", ("mem", ("this",), "size")):
+        if t == M_SIZE:
             return "m_size"
         if t[0] == "ref" and t[1] in pnames:
             return "p:" + t[1]
         return None
     facts = []
     nonempty = False
-    extra_vars = set()
-    for v, init in linit.items():
-        pass
     for st in path_prefix:
         if st[0] != "cond":
             continue
-        node, val = st[1], st[2]
-        t = ir.sx(node)
-        # empty()
+        val = st[2]
+        t = canon(ir.sx(st[1]), lt)
         if t == ("call", ("mem", ("this",), "empty")):
             if not val:
                 nonempty = True
             continue
+        if t == EXTRA and val:
+            nonempty = True
+            continue
         if t[0] == "bin" and t[1] in linear.NEG:
             op = t[1] if val else linear.NEG[t[1]]
-            lhs_n, rhs_n = ir.ekids(ir.strip(node))
-            # extra_bits-like local: initialised from count_extra_bits() / bit_index(size())
-            l_res = resolve_local(lhs_n, linit)
-            if this_call(l_res, {"count_extra_bits"}) and ir.sx(rhs_n) == ("lit", "0") and op in ("!=", ">"):
-                nonempty = True
+            sides = (t[2], t[3])
+            if EXTRA in sides:
+                other = sides[1] if sides[0] == EXTRA else sides[0]
+                flipped = sides[1] == EXTRA
+                if other in (("lit", "0"), ("lit", 0)) and (op == "!=" or (op == ">" and not flipped) or (op == "<" and flipped)):
+                    nonempty = True
                 continue
-            a, b = linear.lin(t[2], symmap), linear.lin(t[3], symmap)
-            if a is not None and b is not None:
-                facts += linear.atom_facts(op, a, b)
+            a_, b_ = linear.lin(t[2], symmap), linear.lin(t[3], symmap)
+            if a_ is not None and b_ is not None:
+                facts += linear.atom_facts(op, a_, b_)
     if linear.entails(facts, Lin({"m_size": 1, "": -1}), ("m_size",) + tuple("p:" + p for p in pnames)):
         nonempty = True
     return facts, nonempty, pnames
@@ -1266,29 +1312,22 @@ def rule_blocks(rep, inst, R="C03.blocks"):
             (rep.holds if cl else rep.violates)(R, lab, "size 0 with cleared buffer", where=d.where(sn), **({} if cl else {"detail": "m_size = 0 without m_buffer.clear()"}))
             continue
         # path-wise: the block count at exit must equal ceil(new size / W).  Symbols: old = block count at entry (= ceil(old size / W) by the
-        # invariant), new = the local holding compute_block_count(<new size>).
-        newvars = set()
-        for n in ir.walk_expr(fn):
-            if n.get("kind") == "VarDecl" and n.get("id") in linit and is_cbc(subst(ir.sx(linit[n.get("id")])), size):
-                newvars.add(n.get("name"))
-        oldvars = set()
-        for n in ir.walk_expr(fn):
-            if n.get("kind") == "VarDecl" and n.get("id") in linit and subst(ir.sx(linit[n.get("id")])) in (
-                    ("call", ("mem", ("this",), "block_count")), ("call", ("mem", ("mem", ("this",), "m_buffer"), "size"))):
-                oldvars.add(n.get("name"))
-        if not newvars:
+        # invariant), new = any term that is compute_block_count(<new size>) after canonicalisation (locals substituted, accessor spellings unified).
+        lt = local_terms(fn)
+        size = canon(size, lt)
+
+        def symmap(t):
+            c = canon(t, lt)
+            if is_cbc(c, size):
+                return "new"
+            if c == N_BLOCKS:
+                return "old"
+            return None
+        has_new = any(symmap(ir.sx(n)) == "new" for n in ir.walk_expr(fn) if n.get("kind") in ("CXXMemberCallExpr", "CallExpr", "DeclRefExpr"))
+        if not has_new:
             rep.violates(R, lab, "block count = ceil(size / W)", where=d.where(sn),
                          detail="m_size becomes `%s` but no block count is computed as compute_block_count of that size" % ir.show(size))
             continue
-
-        def symmap(t):
-            if t[0] == "ref" and t[1] in newvars:
-                return "new"
-            if t[0] == "ref" and t[1] in oldvars:
-                return "old"
-            if t in (("call", ("mem", ("this",), "block_count")), ("call", ("mem", ("mem", ("this",), "m_buffer"), "size"))):
-                return "old"
-            return None
         shrink_by_one = size == ("bin", "-", ("mem", ("this",), "m_size"), ("lit", "1"))
         bad = None
         paths = flow.function_paths(fn, with_ctor_inits=False)
@@ -1334,7 +1373,7 @@ def rule_blocks(rep, inst, R="C03.blocks"):
         if bad:
             rep.violates(R, lab, "block count = ceil(size / W)", where=d.where(bad[0]), detail=bad[1])
         else:
-            rep.holds(R, lab, "block count = ceil(size / W)", where=d.where(fn), detail="%d paths; new count `%s` for size `%s`" % (len(paths), sorted(newvars)[0], ir.show(size)))
+            rep.holds(R, lab, "block count = ceil(size / W)", where=d.where(fn), detail="%d paths; size becomes `%s`" % (len(paths), ir.show(size)))
 
 
 # ---------------------------------------------------------------------------------------------------------------------
@@ -1407,99 +1446,158 @@ def rule_cover(rep, inst, R="C03.cover"):
 # ---------------------------------------------------------------------------------------------------------------------
 # C03.grow
 def rule_grow(rep, inst, R="C03.grow"):
+    """resize(n, true) that grows must OR all-ones << (old size % W) into the old last block.  Decided on canonical terms per path: the patch
+    store, its guards (b, n > old size, old extra bits != 0) and the times at which the old size / old block count were read."""
     d = inst.d
+    EXTRA = ("call", ("mem", ("this",), "bit_index"), M_SIZE)
     for fn in inst.find("resize", "xdynamic_bitset"):
         if len(ir.params(fn)) != 2:
             continue
         lab = label("xdynamic_bitset", "owning", fn, inst)
         asize, b = [p.get("name") for p in ir.params(fn)]
-        linit, _ = locals_init(fn)
+        lt = local_terms(fn)
+        decl_nodes = {n.get("name"): n for n in ir.walk_expr(fn) if n.get("kind") == "VarDecl"}
+
+        def read_time(t, path_index_of_decl, now):
+            """the latest step at which a member (m_size / block count) contributing to t was read: the declaration time of the outermost local
+            that captured it, or `now` for a direct read"""
+            times = []
+
+            def rec(x, via):
+                if not isinstance(x, tuple):
+                    return
+                if x[0] == "ref" and x[1] in lt:
+                    rec(lt[x[1]], path_index_of_decl.get(x[1], now) if via is None else via)
+                    return
+                c = canon(x, {})
+                if c in (M_SIZE, N_BLOCKS):
+                    times.append(via if via is not None else now)
+                    return
+                for y in x[1:]:
+                    rec(y, via)
+            rec(t, None)
+            return times
+
         paths = flow.function_paths(fn, with_ctor_inits=False)
-        nrel = 0
         bad = None
+        npatch = 0
         for path in paths:
-            # facts of the path
-            truth = {}
-            order = []
-            for i, st in enumerate(path):
-                if st[0] == "cond":
-                    truth[ir.sx(st[1])] = st[2]
-                order.append(st)
-            grows = truth.get(("bin", ">", ("ref", asize), ("mem", ("this",), "m_size")))
-            if grows is None:
-                grows = truth.get(("bin", "<", ("mem", ("this",), "m_size"), ("ref", asize)))
-            bt = truth.get(("ref", b))
-            # extra bits test
-            extra_true = None
-            for t, v in truth.items():
-                if t[0] == "bin" and t[2][0] == "ref" and t[3] == ("lit", "0") and t[1] in (">", "!="):
-                    # the local must be count_extra_bits() taken before the size store
-                    extra_true = (t[2][1], v)
+            decl_at = {}
+            size_store_at = resize_at = None
             patch = None
-            size_store_at = None
-            patch_at = None
-            extra_decl_at = None
-            old_decl_at = None
-            resize_at = None
             for i, st in enumerate(path):
+                if st[0] == "decl":
+                    decl_at[st[1].get("name")] = i
                 if st[0] == "ev":
                     n = st[1]
-                    if n.get("kind") == "CompoundAssignOperator" and n.get("opcode") == "|=":
-                        patch, patch_at = n, i
-                    if n.get("kind") == "BinaryOperator" and n.get("opcode") == "=" and member_of_this(ir.ekids(n)[0], "m_size"):
+                    if n.get("kind") in ("BinaryOperator", "CompoundAssignOperator") and n.get("opcode") == "=" and member_of_this(ir.ekids(n)[0], "m_size") and size_store_at is None:
                         size_store_at = i
-                    if n.get("kind") == "CXXMemberCallExpr" and ir.sx(n)[1] == ("mem", ("mem", ("this",), "m_buffer"), "resize"):
+                    if n.get("kind") == "CXXMemberCallExpr" and ir.sx(n)[0] == "call" and ir.sx(n)[1] == ("mem", ("mem", ("this",), "m_buffer"), "resize") and resize_at is None:
                         resize_at = i
-                if st[0] == "decl":
-                    init = ir.ekids(st[1])
-                    if init and this_call(ir.strip(init[-1]), {"count_extra_bits"}):
-                        extra_decl_at = (i, st[1].get("name"))
-                    if init and (this_call(ir.strip(init[-1]), {"block_count"}) or ir.sx(init[-1]) == ("call", ("mem", ("mem", ("this",), "m_buffer"), "size"))):
-                        old_decl_at = (i, st[1].get("name"))
-            need = bool(bt) and bool(grows) and extra_decl_at is not None and extra_true == (extra_decl_at[1], True)
-            if bt and grows and extra_decl_at is None:
-                bad = (fn, "growing with b == true never inspects count_extra_bits()")
-                continue
-            if need:
-                nrel += 1
-                if patch is None:
-                    bad = (fn, "on the path b && asize > m_size && extra_bits > 0 the old last block is not patched")
+                    if n.get("kind") == "CompoundAssignOperator" and n.get("opcode") == "|=" and elem_target(ir.sx(ir.ekids(n)[0]), set()) is not None:
+                        patch = (n, i)
+            # facts of the path on canonical terms
+            b_true = None
+            extra_nonzero = None
+            facts = []
+
+            def symmap(t):
+                c = canon(t, lt)
+                if c == M_SIZE:
+                    return "old"
+                if c == ("ref", asize):
+                    return "new"
+                return None
+            for st in path:
+                if st[0] != "cond":
                     continue
-                t = ir.sx(patch)
-                tgt, val = t[2], t[3]
-                want_tgt = None
-                if old_decl_at is not None:
-                    want_tgt = ("index", ("mem", ("this",), "m_buffer"), ("bin", "-", ("ref", old_decl_at[1]), ("lit", "1")))
-                val_ok = val[0] == "bin" and val[1] == "<<" and val[3] == ("ref", extra_decl_at[1])
-                ones_ok = False
-                if val_ok and val[2][0] == "ref":
-                    # value local must be all-ones when b
-                    for n in ir.walk_expr(fn):
-                        if n.get("kind") == "VarDecl" and n.get("name") == val[2][1] and ir.ekids(n):
-                            init = ir.strip(ir.ekids(n)[-1])
-                            if init.get("kind") == "ConditionalOperator":
-                                c, x, y = ir.ekids(init)
-                                try:
-                                    ones = ceval.conv(ceval.ev(x, ceval.Ctx(d)), inst.btype) == inst.full
-                                except (ceval.Unknown, ceval.UB):
-                                    ones = False
-                                ones_ok = ir.sx(c) == ("ref", b) and ones
-                if tgt != want_tgt:
-                    bad = (patch, "the patch targets `%s`, expected the old last block `m_buffer[<old block count> - 1]`" % ir.show(tgt))
-                elif not (val_ok and ones_ok):
-                    bad = (patch, "the patch ORs `%s`, expected all-ones shifted left by the old count_extra_bits()" % ir.show(val))
-                elif size_store_at is not None and (extra_decl_at[0] > size_store_at):
-                    bad = (patch, "count_extra_bits() is read after m_size was updated")
-                elif old_decl_at is not None and resize_at is not None and old_decl_at[0] > resize_at:
-                    bad = (patch, "the old block count is read after the buffer was resized")
-            elif patch is not None and not (bt and grows):
-                bad = (patch, "the last-block patch also runs when not growing with true (b=%s, asize > m_size=%s): its index can be out of range after a shrink" % (bt, grows))
+                c = canon(ir.sx(st[1]), lt)
+                if c == ("ref", b):
+                    b_true = st[2]
+                    continue
+                if c == EXTRA:
+                    extra_nonzero = st[2]
+                    continue
+                if c[0] == "bin" and c[1] in linear.NEG:
+                    op = c[1] if st[2] else linear.NEG[c[1]]
+                    if EXTRA in (c[2], c[3]):
+                        other = c[3] if c[2] == EXTRA else c[2]
+                        if other in (("lit", "0"), ("lit", 0)):
+                            flipped = c[3] == EXTRA
+                            if op == "!=" or (op == ">" and not flipped) or (op == "<" and flipped):
+                                extra_nonzero = True
+                            elif op == "==" or (op == "<=" and not flipped) or (op == ">=" and flipped):
+                                extra_nonzero = False
+                        continue
+                    l_, r_ = linear.lin(c[2], symmap), linear.lin(c[3], symmap)
+                    if l_ is not None and r_ is not None:
+                        facts += linear.atom_facts(op, l_, r_)
+            grows = linear.entails(facts, Lin({"new": 1, "old": -1, "": -1}), ())
+            not_grows = linear.entails(facts, Lin({"old": 1, "new": -1}), ())
+            if patch is not None:
+                npatch += 1
+                n, at = patch
+                t = ir.sx(n)
+                tgt, val = canon(t[2], lt), canon(t[3], lt)
+                raw_tgt, raw_val = t[2], t[3]
+                if not (b_true and grows and extra_nonzero):
+                    bad = (n, "the last-block patch runs on a path that did not establish b, n > old size and (old size %% W) != 0 (b=%s, grows=%s, extra bits != 0: %s): "
+                              "its index is out of range after a shrink, or it sets bits that must stay clear" % (b_true, grows, extra_nonzero))
+                    break
+                if tgt != ("index", ("mem", ("this",), "m_buffer"), ("bin", "-", N_BLOCKS, ("lit", "1"))):
+                    bad = (n, "the patch targets `%s`, expected the old last block m_buffer[<old block count> - 1]" % ir.show(raw_tgt))
+                    break
+                if any(tm >= (resize_at if resize_at is not None else 10 ** 9) for tm in read_time(raw_tgt, decl_at, at)):
+                    bad = (n, "the block count used to find the old last block is read after the buffer was resized")
+                    break
+                if not (val[0] == "bin" and val[1] == "<<" and val[3] == EXTRA):
+                    bad = (n, "the patch ORs `%s`, expected all-ones shifted left by (old size %% bits_per_block)" % ir.show(raw_val))
+                    break
+                if any(tm >= (size_store_at if size_store_at is not None else 10 ** 9) for tm in read_time(raw_val[3] if raw_val[0] == "bin" else raw_val, decl_at, at)):
+                    bad = (n, "the number of used bits of the old last block is computed after m_size was updated")
+                    break
+                # the shifted value must be all-ones when b is true
+                vnode = ir.ekids(n)[1]
+                vt = ir.strip(vnode)
+                while vt.get("kind") in ("ParenExpr", "ImplicitCastExpr") and ir.ekids(vt):
+                    vt = ir.ekids(vt)[0]
+                left = ir.ekids(vt)[0] if vt.get("kind") == "BinaryOperator" else None
+                ones = False
+                if left is not None:
+                    env = {}
+                    for p_ in ir.params(fn):
+                        if p_.get("name") == b:
+                            env[p_.get("id")] = 1
+                    try:
+                        src = left
+                        hops = 0
+                        while hops < 4:
+                            sx_ = ir.strip(src)
+                            if sx_.get("kind") == "DeclRefExpr" and (sx_.get("referencedDecl") or {}).get("name") in decl_nodes and ir.ekids(decl_nodes[(sx_.get("referencedDecl") or {}).get("name")]):
+                                src = ir.ekids(decl_nodes[(sx_.get("referencedDecl") or {}).get("name")])[-1]
+                                hops += 1
+                            else:
+                                break
+                        ones = ceval.conv(ceval.ev(src, ceval.Ctx(d, env)), inst.btype) == inst.full
+                    except (ceval.Unknown, ceval.UB):
+                        ones = False
+                if not ones:
+                    bad = (n, "the value shifted into the old last block is not all-ones when b is true")
+                    break
+            else:
+                if b_true and grows and extra_nonzero is not False and not not_grows:
+                    # growing with true and the old last block partly used (or not tested): the patch is missing on this path
+                    if extra_nonzero is True or extra_nonzero is None:
+                        bad = (fn, "on a path with b true and n > old size%s the old last block is not patched: the bits between the old size and the end of that block stay 0"
+                                   % (" and (old size % W) != 0" if extra_nonzero else ""))
+                        break
         if bad:
             rep.violates(R, lab, "growing with true fills the old last block above the old size", where=d.where(bad[0]), detail=bad[1])
-        elif nrel == 0:
-            rep.inconclusive(R, lab, "growing with true fills the old last block above the old size", where=d.where(fn), detail="no path with b && asize > m_size && extra_bits > 0 recognised")
+        elif npatch == 0:
+            rep.violates(R, lab, "growing with true fills the old last block above the old size", where=d.where(fn),
+                         detail="resize(n, true) never ORs the fill value into the old last block: after growing from a size that is not a multiple of the block width the new bits up to the block boundary are 0")
         else:
-            rep.holds(R, lab, "growing with true fills the old last block above the old size", where=d.where(fn), detail="%d relevant paths of %d" % (nrel, len(paths)))
+            rep.holds(R, lab, "growing with true fills the old last block above the old size", where=d.where(fn), detail="%d patched paths of %d" % (npatch, len(paths)))
 
 
 # ---------------------------------------------------------------------------------------------------------------------
